@@ -312,3 +312,49 @@ Qed.
 Lemma root_info_rec0 : forall oc summ, contracting summ ->
   forall t, info_eqc (root_info oc summ t) (ninfo (rec0 oc t)).
 Proof. intros oc summ Hs t. apply node_eqc_info, record_eqc; exact Hs. Qed.
+
+(** * 2. Every policy of the recorder, and every choice function, only contracts *)
+
+Lemma contracts_collapse : forall n, contracts n (collapse n).
+Proof. intros [i|i c|i ch]; cbn; [apply contracts_refl|apply contracts_refl|apply ct_collapse]. Qed.
+
+Lemma prune_contracts : forall n b, contracts n (prune b n).
+Proof.
+  induction n as [i|i c IH|i ch IH] using node_ind'; intros b.
+  - cbn. constructor.
+  - cbn [prune]. constructor. apply IH.
+  - cbn [prune].
+    destruct (i_cur i <=? b); [apply contracts_refl|].
+    destruct (i_min i >=? i_cur i); [apply contracts_refl|].
+    destruct ((b <? zsum (map min_below ch) + 1) && (i_min i =? 1)); [apply ct_collapse|].
+    apply ct_sub.
+    generalize (b - 1) (i_cur i - 1).
+    induction IH as [|x r Hx _ IHr]; intros bl nl; cbn [prune_list fst]; constructor; [apply Hx|apply IHr].
+Qed.
+
+Lemma summarize_contracts : forall st n, contracts n (summarize st n).
+Proof.
+  intros st n. unfold summarize.
+  destruct (negb (s_nct st =? 0)).
+  - destruct (i_cur (ninfo n) >? s_prune st); [apply prune_contracts|apply contracts_refl].
+  - destruct (negb (s_cmc st =? 0)).
+    + destruct (nc_total (i_nodes (ninfo n)) <? s_cmc st); [apply contracts_collapse|apply contracts_refl].
+    + match goal with |- contracts _ (if ?c then _ else _) => destruct c end;
+        [apply contracts_collapse|apply contracts_refl].
+Qed.
+
+Lemma contract_contracts : forall sel n rel, contracts n (contract sel rel n).
+Proof.
+  intros sel. induction n as [i|i c IH|i ch IH] using node_ind'; intros rel.
+  - cbn. constructor.
+  - cbn [contract]. constructor. apply IH.
+  - cbn [contract]. destruct (sel rel); [apply ct_collapse|].
+    apply ct_sub. generalize 0%nat.
+    induction IH as [|x r Hx _ IHr]; intros k; cbn [contract_list]; constructor; [apply Hx|apply IHr].
+Qed.
+
+Lemma contracting_setting : forall st, contracting (summ_setting st).
+Proof. intros st p n. apply summarize_contracts. Qed.
+
+Lemma contracting_choice : forall ch, contracting (summ_choice ch).
+Proof. intros ch p n. apply contract_contracts. Qed.
